@@ -522,6 +522,74 @@ func levelB(r *ev.Run, rng *rand.Rand) {
 	r.Distinct(fmt.Sprintf("B|%v", events))
 }
 
+// edgePhase: sequential (no updater) reset edge cases on one member; every grant goes through the
+// same offline checker, so an accepted reset that moves the time or the counter backwards shows up
+// as a real-time order / overlap violation.
+func edgePhase(r *ev.Run, e *etcdx.Etcd, rng *rand.Rand) {
+	w, err := tsow.NewWorld(e, fmt.Sprintf("/c01/e%02d_", r.Shard), 1, 3*time.Second, time.Millisecond)
+	if err != nil {
+		r.Inconclusive("world: %v", err)
+		return
+	}
+	defer w.Close()
+	m := w.Members[0]
+	if m.Campaign(true) != nil || m.Alloc.Initialize(0) != nil {
+		r.Inconclusive("edge phase setup failed")
+		return
+	}
+	var log []string
+	n := r.Pick(300, 3000)
+	for i := 0; i < n; i++ {
+		w.TSO(0, m, uint32(1+rng.Intn(20)), 0)
+		ph, lg, _, ok := tso.VerifSnapshot(m.Alloc)
+		if !ok || ph.IsZero() {
+			continue
+		}
+		pms := ph.UnixNano() / int64(time.Millisecond)
+		var tp, tl int64
+		switch k := rng.Intn(8); k {
+		case 0:
+			tp, tl = pms, lg-1-int64(rng.Intn(4))
+		case 1:
+			tp, tl = pms, lg
+		case 2:
+			tp, tl = pms, lg+1
+		case 3:
+			tp, tl = pms-1, lg+100
+		case 4:
+			tp, tl = pms+1, 0
+		case 5:
+			tp, tl = pms, 1<<18-1
+		case 6:
+			tp, tl = pms+1, 1<<18-2
+		default:
+			tp, tl = pms, lg+int64(rng.Intn(1000))
+		}
+		if tl < 0 {
+			tl = 0
+		}
+		err := m.Alloc.SetTSO(tsoutil.GenerateTS(tsoutil.GenerateTimestamp(time.Unix(0, tp*int64(time.Millisecond)), uint64(tl))))
+		if len(log) < 400 {
+			log = append(log, fmt.Sprintf("t%d mem=(%d,%d) SetTSO(%d,%d) accepted=%v", hist.Now(), pms, lg, tp, tl, err == nil))
+		}
+		r.Count("edge_resets", 1)
+		if err == nil {
+			r.Count("edge_resets_accepted", 1)
+		}
+		w.TSO(0, m, 1, 0)
+		if rng.Intn(10) == 0 {
+			time.Sleep(2 * time.Millisecond)
+			m.Alloc.UpdateTSO()
+		}
+	}
+	m.Resign()
+	if p := tsochk.Check(w.Responses()); p != nil {
+		r.Violation(p.Kind+":reset-edge", p.What, map[string]interface{}{"problem": p, "resets": log})
+	}
+	r.Eval(1)
+	r.Distinct("edge-phase")
+}
+
 func probeFailpoints(e *etcdx.Etcd) bool {
 	w, err := tsow.NewWorld(e, "/c01/probe_", 1, 50*time.Millisecond, 50*time.Millisecond)
 	if err != nil {
@@ -557,6 +625,7 @@ func main() {
 	}
 	fpLive := probeFailpoints(e)
 	r.Set("clock_failpoints_effective", fpLive)
+	edgePhase(r, e, rng)
 	nw := r.Pick(6, 30)
 	for wi := 0; wi < nw; wi++ {
 		levelA(r, e, rng, wi, fpLive)
